@@ -76,6 +76,23 @@ def cases(tier, seed):
     d.update({"fields": ["temp", "density", "Z"], "payload": "affidx", "seed": seed, "levelprefix": "Lev_",
               "layout": [scope.layouts(len(b), 'idrev')[-1] for b in m_["levels"]]})
     out.append({"desc": d, "w": 4})
+    # binary file numbers of different widths (Cell_D_10000 beside Cell_D_100000, Cell_D_99999 beside Cell_D_100000): two equal
+    # boxes per level, each in its own file, so that a FAB of the same shape sits at the same offset of the look-alike file
+    for first in (0, 1):
+        d = {"ndims": 3, "domain": [8, 4, 4], "levels": [[[[0, 0, 0], [3, 3, 3]], [[4, 0, 0], [7, 3, 3]]],
+                                                       [[[0, 0, 0], [3, 3, 3]], [[4, 0, 0], [7, 3, 3]], [[8, 0, 0], [11, 3, 3]]]]}
+        d.update(list(scope.geometries(3))[(seed + first) % 6])
+        d.update({"fields": ["temp", "density", "Z"], "payload": "affidx", "seed": seed,
+                  "layout": [scope.wide_numbers({"files": [[1], [0]], "nums": [0, 1]}, first),
+                             scope.wide_numbers({"files": [[2], [0], [1]], "nums": [1, 0, 2]}, first)]})
+        out.append({"desc": d, "w": 4})
+    # twelve levels (Level_10, Level_11)
+    from .c02 import chain_mesh
+    cm = chain_mesh(3, 12)
+    d = dict(cm)
+    d.update(list(scope.geometries(3))[(seed + 2) % 6])
+    d.update({"fields": ["temp", "density", "Z"], "payload": "affidx", "seed": seed, "layout": [None] * 12})
+    out.append({"desc": d, "w": 30})
     # seven levels towards the far corner, twelve fields: FAB header lines longer than 100 bytes
     d = dict(scope.deep_corner_mesh())
     d.update(list(scope.geometries(3))[(seed + 1) % 6])
@@ -112,6 +129,7 @@ def run_case(case, workdir):
                      ("array_unsorted", np.array([6, 7, 1]), [6, 7, 1])]
         reused = {tag: pck[sel] for tag, sel, fidx in sels}      # ONE selector object per form, queried again and again
         nlev = ref.nlevels
+        remembered = []         # (level, box, cell, point) of a few interior cells per box, asked again at the end
         for lv in range(nlev):
             for b, (lo, hi) in enumerate(ref.boxes[lv]):
                 covered = ref.covered_mask(lv, b, nlev - 1)
@@ -137,6 +155,8 @@ def run_case(case, workdir):
                             if st_ == "exc" or got_.shape != exp_.shape or not np.all(close(got_, exp_, tol_)):
                                 rec.fail("values", {"level": lv, "box": b, "cell": g, "point": pt_, "selection": tag, "spelling_of": pt},
                                          "returned %r, stored %r" % (exc_text(val_) if st_ == "exc" else got_.tolist(), exp_.tolist()))
+                    if sum(1 for r_ in remembered if r_[0] == lv and r_[1] == b) < 3:
+                        remembered.append((lv, b, loc, g, pt))
                     for tag, sel, fidx in sels:
                         st, val = call(lambda: pck[sel](*pt))
                         sub = {"level": lv, "box": b, "cell": g, "point": pt, "selection": tag}
@@ -160,6 +180,27 @@ def run_case(case, workdir):
                             if got2.shape != exp.shape or not np.all(close(got2, exp, tol)):
                                 rec.fail("history_dependent", dict(sub, selector="re-used object"),
                                          "a selector object queried before returned %r, stored %r" % (got2.tolist(), exp.tolist()))
+        # history: the caller also asks at points that are NOT interior cell centres - on the faces and corners of every box, between
+        # boxes, on level boundaries (whatever is answered there is not judged: the statement is about interior centres) - and then
+        # asks at interior cell centres again, through the same reader
+        for lv in range(nlev):
+            for b, (lo, hi) in enumerate(ref.boxes[lv]):
+                for corner in itertools.product((0, 1), repeat=3):
+                    ptf = [ref.geo_lo[d] + ((hi[d] + 1) if corner[d] else lo[d]) * ref.dx[lv][d] for d in range(3)]
+                    ptm = [ref.geo_lo[d] + (((hi[d] + 1) if corner[d] else lo[d]) if d == 0 else (lo[d] + hi[d] + 1) / 2.0) * ref.dx[lv][d] for d in range(3)]
+                    for p_ in (ptf, ptm):
+                        for tag, sel, fidx in sels[:3]:
+                            call(lambda: pck[sel](*p_))
+        for lv, b, loc, g, pt in remembered:
+            for tag, sel, fidx in sels[:3]:
+                st, val = call(lambda: pck[sel](*pt))
+                rec.exe([dh, lv, g, tag, "after_face_queries"], nontrivial=True)
+                sub = {"level": lv, "box": b, "cell": g, "point": pt, "selection": tag, "history": "queries on box faces and corners first"}
+                exp = np.array([ref.data[lv][b][loc + (f,)] for f in fidx])
+                tol = np.array([1e-9 * float(np.max(np.abs(ref.data[lv][b][..., f][np.isfinite(ref.data[lv][b][..., f])]))) for f in fidx]) + 1e-300
+                got = np.atleast_1d(np.asarray(val, dtype=float)).ravel() if st != "exc" else None
+                if st == "exc" or got.shape != exp.shape or not np.all(close(got, exp, tol)):
+                    rec.fail("history_dependent", sub, "returned %r, stored %r" % (exc_text(val) if st == "exc" else got.tolist(), exp.tolist()))
         # outside the domain: every side, half a coarse cell and five cells out
         mid = [0.5 * (a + b) for a, b in zip(ref.geo_lo, ref.geo_hi)]
         for d in range(3):
